@@ -185,6 +185,52 @@ TABLE = [
 ]
 
 
+# ---- C07 (Lime / KernelShap): elementwise tensor expressions read as scalar arithmetic ----------
+def c07_rewritten(target, subst):
+    """value of `target = ...` with TF calls replaced: subst maps a called function name
+    (`reduce_max`, `ones`, `multiply`) to 'name:<var>' | 'const:<int>' | 'binop:mul'"""
+    def finder(fn):
+        val = assign_value(target)(fn)
+
+        class Rw(ast.NodeTransformer):
+            def visit_Call(self, node):
+                self.generic_visit(node)
+                f = node.func
+                name = f.attr if isinstance(f, ast.Attribute) else (f.id if isinstance(f, ast.Name) else None)
+                how = subst.get(name)
+                if how is None:
+                    return node
+                if how.startswith("name:"):
+                    new = ast.Name(id=how[5:], ctx=ast.Load())
+                elif how.startswith("const:"):
+                    if not (node.args and isinstance(node.args[0], ast.Constant) and node.args[0].value == 1):
+                        raise Untranslatable("tf.ones argument is not 1: " + ast.unparse(node))
+                    new = ast.Constant(value=int(how[6:]))
+                elif how == "binop:mul":
+                    if len(node.args) != 2:
+                        raise Untranslatable("multiply needs two arguments")
+                    new = ast.BinOp(left=node.args[0], op=ast.Mult(), right=node.args[1])
+                else:
+                    raise Untranslatable("bad substitution")
+                return ast.copy_location(new, node)
+        import copy
+        out = ast.fix_missing_locations(Rw().visit(copy.deepcopy(val)))
+        return out
+    return finder
+
+
+KS_ENV = {"num_features": "F", "list_features_indexes": "k"}
+TABLE += [
+    ("limeNumFeatures", "mx", "attributions/lime.py", "Lime", "explain",
+     c07_rewritten("num_features", {"reduce_max": "name:mx", "ones": "const:1"}), {"mx": "mx"},
+     "(mx + (1 : Int))"),
+    ("kshapProbNum", "F", "attributions/kernel_shap.py", "KernelShap", "_get_probs_nb_selected_feature",
+     assign_value("num"), KS_ENV, "(F - (1 : Int))"),
+    ("kshapProbDen", "k F", "attributions/kernel_shap.py", "KernelShap", "_get_probs_nb_selected_feature",
+     c07_rewritten("denom", {"multiply": "binop:mul"}), KS_ENV, "(k * (F - k))"),
+]
+
+
 def generate():
     status = {}
     lines = [
